@@ -194,6 +194,11 @@ var c02Families = []c02Family{
 			return fmt.Sprintf("input I%d { next: I%d = {} n: [I%d] } ", i, (i+1)%k, (i+1)%k)
 		})
 	}, nil},
+	{"loader-blank-descriptions", func(k int) string {
+		// descriptions that are block strings holding nothing but blanks and blank lines (their value is empty)
+		blanks := []string{`""""""`, `"""   """`, "\"\"\"\n\n\"\"\"", "\"\"\" \t\n  \n\"\"\"", "\"\"\"\r\n\"\"\"", `""`}
+		return blanks[k%len(blanks)] + " type Query { " + rep(k, func(i int) string { return fmt.Sprintf("%s f%d(%s a: Int): Int ", blanks[i%len(blanks)], i, blanks[(i+1)%len(blanks)]) }) + "}"
+	}, nil},
 	{"loader-extensions", func(k int) string {
 		return "type Query { a: Int } " + rep(k, func(i int) string { return fmt.Sprintf("extend type Query { f%d: Int } ", i) })
 	}, nil},
